@@ -239,18 +239,19 @@ func (hs *clientHandshakeStateGM) doFullHandshake() error {
 			for _, rootca := range getCAs() {
 				opts.Roots.AddCert(rootca)
 			}
-			for i, cert := range certs {
-				// GM SSL 证书链中不含根证书 第1张为签名证书、第2张为加密证书，其他的证书都认为是根证书
-				if i == 0 || i == 1 {
-					// 只验证 签名证书  和 加密证书
-					c.verifiedChains, err = certs[i].Verify(opts)
-					if err != nil {
-						_ = c.sendAlert(alertBadCertificate)
-						return err
-					}
-					continue
-				}
+			// GM/T 0024: the first certificate is the signing certificate, the second the
+			// encryption certificate; whatever follows is the CA chain of the two. The
+			// chain has to be in the pool before the two end-entity certificates are verified.
+			for _, cert := range certs[2:] {
 				opts.Intermediates.AddCert(cert)
+			}
+			// 只验证 签名证书  和 加密证书
+			for _, cert := range certs[:2] {
+				c.verifiedChains, err = cert.Verify(opts)
+				if err != nil {
+					_ = c.sendAlert(alertBadCertificate)
+					return err
+				}
 			}
 
 		}
